@@ -67,6 +67,15 @@ func genC11Prog(t *Tape) (*Prog, []int) {
 		// a non-fatal failure followed by an invalidation that does not come from Skip (a generator giving up)
 		rangeIf(sel, bounds[7], bounds[8], &Stmt{K: SFail, FKind: FKErrorf, Site: 0}, &Stmt{K: SDraw, Var: 2, Gen: &GenSpec{K: "filter_never"}, Label: lab("never")}),
 	)
+	if w[0]%2 == 0 {
+		// every other program ends in a small state machine (reached by the cases that neither skipped nor stopped before);
+		// the interpreter names its actions after what the case drew first, so the names differ from case to case
+		p.NVars = 4
+		p.Body = append(p.Body, &Stmt{K: SRepeat, Acts: []Action{
+			{Name: "A", Body: []*Stmt{{K: SDraw, Var: 3, Gen: &GenSpec{K: "uint8"}, Label: lab("a")}}},
+			{Name: "B", Body: []*Stmt{{K: SLog, LogK: 0, LogN: 3}}},
+		}})
+	}
 	p.NSites = 4
 	return p, bounds
 }
